@@ -94,6 +94,14 @@ claim("C04", "MIR constructor gate + who-may-write enumeration of the seven guar
       "table maps each variant to its own collection; remove_method_and_scope removes the id from all five relationship sets and the general set without early exit; serde defaults/untagged order.",
       "equality with an abstract model over histories; DIDUrlQuery first-match semantics; concrete JSON round trips.", "DESIGN.md §7 C04")
 
+claim("C16", "MIR result-discipline (T9) over every fallible call of the SD-JWT paths + HIR structural dominance + comparison-role normalisation + guard inventory with option-gating + format-template decoding",
+      "Decides on every path: no Result of verify / decode / parse_jwk / disclosure decoding / from_unix on the SD-JWT paths is unwrapped, swallowed or dropped (never a crash); verify_signature's Ok is "
+      "dominated by decode, parse_jwk (same nonce/kid/scope rules as C02-R3), verify_signature_raw with the validator's verifier and the resolved key, SdObjectDecoder::decode over the *verified* claims "
+      "and the supplied disclosures, try_into_credential and issuer == method_id.did(); validate_credential finishes through validate_decoded_credential (C02-R4); the KB-JWT path has, before its single "
+      "success exit, typ == kb+jwt, key resolution in the holder document within the configured scope, signature ✓, claims parsed from the verified payload, sd_hash == digest over "
+      "`{jwt}~{disclosures joined by ~}~` with the hasher named in the SD-JWT, option-gated nonce and aud equalities, iat through from_unix and the earliest/latest/now window with the right relations.",
+      "sd-jwt-payload's digest matching and hasher selection; cryptographic outcome.", "DESIGN.md §7 C16")
+
 for _p, _r in {
     "C01": "rules not yet implemented in this revision (planned, DESIGN §7)", "C02": "rules not yet implemented in this revision",
     "C03": "rules not yet implemented in this revision", "C04": "rules not yet implemented in this revision",
